@@ -65,34 +65,34 @@ type Exec struct {
 	sol  *Solver
 
 	// per work item
-	params   map[string]int64
-	sparams  map[string]string
-	known    map[string]bool // known-finding keys switched on (deviant oracle)
-	concrete map[string]*big.Rat // concrete mode: nondet values by name (nil = symbolic mode)
-	concBool map[string]bool
+	params       map[string]int64
+	sparams      map[string]string
+	known        map[string]bool     // known-finding keys switched on (deviant oracle)
+	concrete     map[string]*big.Rat // concrete mode: nondet values by name (nil = symbolic mode)
+	concBool     map[string]bool
 	concreteMode bool
-	seedGen  func(name string) *big.Rat
+	seedGen      func(name string) *big.Rat
 
 	// per path
-	trail   []int
-	pos     int
-	pending [][]int
-	pc      []*Term
-	pcKey   string
-	kn      map[int]int64
-	steps   int64
-	depth   int
-	epoch   int
-	fps     []*footprint
-	globals map[*ssa.Global]*Cell
-	res     *PathResult
-	draws   []Draw
-	axDone  map[string]bool
-	axByTrig map[int][]*axEntry
-	nondets map[string]*Term // every nondet variable created on this path
-	ranges  map[string][2]int64
+	trail        []int
+	pos          int
+	pending      [][]int
+	pc           []*Term
+	pcKey        string
+	kn           map[int]int64
+	steps        int64
+	depth        int
+	epoch        int
+	fps          []*footprint
+	globals      map[*ssa.Global]*Cell
+	res          *PathResult
+	draws        []Draw
+	axDone       map[string]bool
+	axByTrig     map[int][]*axEntry
+	nondets      map[string]*Term // every nondet variable created on this path
+	ranges       map[string][2]int64
 	closureCalls map[*Closure]int
-	allClosures []*Closure
+	allClosures  []*Closure
 
 	// per worker (persist across paths)
 	maxSteps  int64
@@ -114,7 +114,7 @@ func NewExec(prog *ssa.Program, sol *Solver) *Exec {
 		feasMemo: map[string]bool{}, concMemo: map[string][]int64{},
 		fnSeen: map[*ssa.Function]bool{}, sumOK: map[*ssa.Function]int8{},
 		rangesAll: map[string][2]int64{},
-		maxViol: 3,
+		maxViol:   3,
 	}
 }
 
